@@ -1,3 +1,4 @@
+import FlowRecordProofs.Lemmas.KwCtor
 import FlowRecordProofs.Lemmas.Avro
 /-!
 C19 — Avro export preserves supported values and never corrupts silently.
@@ -335,3 +336,13 @@ example : fileRows fastavro (writeAll J0 fastavro F0 .init [r1, r2, r3]).1 =
       .int 33]] := by decide
 example : fileRows fastavro (writeAll J0 fastavro F0 .init [r1, r3, r2]).1 = some [r1.values, r3.values] := by decide
 end C19_nonvacuous
+
+
+/-- READERS BUILD RECORDS BY KEYWORD: for record types with a field named like a Python keyword the generated
+    constructor assigns `kwargs.get(k, v)` - a value handed over by keyword is the slot's value also when it is falsy
+    (0, "", False, an empty list), and `_unpack` tests `is not None`. The template text is regenerated from the source
+    and must equal the frozen text this meaning belongs to. -/
+theorem C19_keyword_constructor_keeps_values {V : Type} (x pos : V) :
+    (FlowRecord.Gen.tplKwInit = FlowRecord.KwCtor.frozenInit ∧ FlowRecord.Gen.tplKwUnpack = FlowRecord.KwCtor.frozenUnpack) ∧
+    FlowRecord.KwCtor.slotValue (some x) pos = x ∧ FlowRecord.KwCtor.slotValue (none : Option V) pos = pos :=
+  ⟨FlowRecord.KwCtor.template_is_frozen, rfl, rfl⟩
